@@ -291,7 +291,19 @@ func (ci *ConstructorInvoker) Invoke(
 	// Check for error return
 	if info.HasErrorReturn && len(results) > 0 {
 		lastResult := results[len(results)-1]
-		if !lastResult.IsNil() {
+
+		// The declared type only has to implement error: it may be an
+		// interface or pointer (nil means success) or a type that cannot be
+		// nil, such as a struct with a value receiver (zero means success).
+		failed := false
+		switch lastResult.Kind() {
+		case reflect.Interface, reflect.Pointer, reflect.Map, reflect.Slice, reflect.Func, reflect.Chan:
+			failed = !lastResult.IsNil()
+		default:
+			failed = !lastResult.IsZero()
+		}
+
+		if failed {
 			if err, ok := lastResult.Interface().(error); ok {
 				return nil, fmt.Errorf("constructor error: %w", err)
 			}
